@@ -201,6 +201,43 @@ def argopt_final_pick(fn: ast.FunctionDef):
     return None
 
 
+def permutation_helpers(prog: Program, fi) -> dict:
+    """the functions - nested in `fi` or at module level of its module, under whatever name - that return their points argument
+    reordered:  [p for _, p in sorted(zip(<keys>, <points parameter>), ...)]  on every return.
+    -> {name as called: (FunctionDef, index of the points parameter)}"""
+    from ..model import walk_no_nested
+
+    out = {}
+    cands = [n for n in ast.walk(fi.node) if isinstance(n, ast.FunctionDef) and n is not fi.node]
+    mod = prog.modules.get(fi.module)
+    if mod is not None:
+        cands += [f.node for f in mod.functions.values()]
+    for fn in cands:
+        params = [a.arg for a in fn.args.args]
+        rets = [r for r in walk_no_nested(fn) if isinstance(r, ast.Return) and r.value is not None]
+        idx = None
+        ok = bool(rets)
+        for r in rets:
+            v = r.value
+            good = (isinstance(v, ast.ListComp) and len(v.generators) == 1 and not v.generators[0].ifs and isinstance(v.elt, ast.Name)
+                    and isinstance(v.generators[0].target, ast.Tuple) and len(v.generators[0].target.elts) == 2
+                    and isinstance(v.generators[0].target.elts[1], ast.Name) and v.generators[0].target.elts[1].id == v.elt.id
+                    and isinstance(v.generators[0].iter, ast.Call) and attr_chain(v.generators[0].iter.func) == "sorted" and v.generators[0].iter.args
+                    and isinstance(v.generators[0].iter.args[0], ast.Call) and attr_chain(v.generators[0].iter.args[0].func) == "zip" and len(v.generators[0].iter.args[0].args) == 2
+                    and isinstance(v.generators[0].iter.args[0].args[1], ast.Name) and v.generators[0].iter.args[0].args[1].id in params)
+            if not good:
+                ok = False
+                break
+            k = params.index(v.generators[0].iter.args[0].args[1].id)
+            if idx is not None and idx != k:
+                ok = False
+                break
+            idx = k
+        if ok and idx is not None:
+            out[fn.name] = (fn, idx)
+    return out
+
+
 def expand_locals(fn: ast.FunctionDef, e: ast.expr, before: int, depth: int = 5) -> ast.expr:
     """e with every local name replaced by the value of its latest plain assignment (name = expr, at function level, not in a
     nested def) that precedes line `before` - applied repeatedly: the expression in terms of attributes, parameters and
